@@ -5,28 +5,80 @@ package table
 import (
 	"bytes"
 	"encoding/json"
+	"reflect"
+	"unsafe"
 
 	"github.com/weedbox/pokerface"
 )
 
-// native counterparts: a JSON round trip is what it is; in-memory deep copy is taken through JSON too
-// (the native side only needs "a copy"), equality is JSON equality.
-func vCloneStateT(gs *pokerface.GameState) *pokerface.GameState {
-	data, err := json.Marshal(gs)
-	if err != nil {
-		panic(err)
-	}
-	var c pokerface.GameState
-	if err := json.Unmarshal(data, &c); err != nil {
-		panic(err)
-	}
-	// Pot.Levels is not serialized; keep the in-memory copy complete
-	for i, p := range gs.Status.Pots {
-		if i < len(c.Status.Pots) {
-			c.Status.Pots[i].Levels = p.Levels
+// native counterparts: the in-memory copy is a true deep copy (reflection, unexported fields
+// included); the JSON clone is the backend's own cloneState; equality is JSON equality.
+
+func vDeepCopyValue(dst, src reflect.Value, seen map[unsafe.Pointer]reflect.Value) {
+	switch src.Kind() {
+	case reflect.Ptr:
+		if src.IsNil() {
+			return
 		}
+		if v, ok := seen[src.UnsafePointer()]; ok {
+			dst.Set(v)
+			return
+		}
+		n := reflect.New(src.Type().Elem())
+		seen[src.UnsafePointer()] = n
+		vDeepCopyValue(n.Elem(), src.Elem(), seen)
+		dst.Set(n)
+	case reflect.Struct:
+		for i := 0; i < src.NumField(); i++ {
+			sf := src.Field(i)
+			df := dst.Field(i)
+			if !df.CanSet() {
+				df = reflect.NewAt(df.Type(), unsafe.Pointer(df.UnsafeAddr())).Elem()
+				if sf.CanAddr() {
+					sf = reflect.NewAt(sf.Type(), unsafe.Pointer(sf.UnsafeAddr())).Elem()
+				} else {
+					continue
+				}
+			}
+			vDeepCopyValue(df, sf, seen)
+		}
+	case reflect.Slice:
+		if src.IsNil() {
+			return
+		}
+		n := reflect.MakeSlice(src.Type(), src.Len(), src.Len())
+		for i := 0; i < src.Len(); i++ {
+			vDeepCopyValue(n.Index(i), src.Index(i), seen)
+		}
+		dst.Set(n)
+	case reflect.Map:
+		if src.IsNil() {
+			return
+		}
+		n := reflect.MakeMapWithSize(src.Type(), src.Len())
+		it := src.MapRange()
+		for it.Next() {
+			v := reflect.New(src.Type().Elem()).Elem()
+			vDeepCopyValue(v, it.Value(), seen)
+			n.SetMapIndex(it.Key(), v)
+		}
+		dst.Set(n)
+	case reflect.Interface:
+		if src.IsNil() {
+			return
+		}
+		v := reflect.New(src.Elem().Type()).Elem()
+		vDeepCopyValue(v, src.Elem(), seen)
+		dst.Set(v)
+	default:
+		dst.Set(src)
 	}
-	return &c
+}
+
+func vCloneStateT(gs *pokerface.GameState) *pokerface.GameState {
+	var c *pokerface.GameState
+	vDeepCopyValue(reflect.ValueOf(&c).Elem(), reflect.ValueOf(gs), map[unsafe.Pointer]reflect.Value{})
+	return c
 }
 
 func vJSONCloneStateT(gs *pokerface.GameState) *pokerface.GameState { return cloneState(gs) }
